@@ -3,7 +3,9 @@
    determine concrete values. *)
 From Coq Require Import List ZArith Bool Arith Lia Reals Lra.
 From Flocq Require Import Core.Raux.
-From Inferno Require Import Base.Num Base.NumR Gen.Infra C01.Ring C04.Synapse
+(* C04.SynapseExec is required so that building the obligations also (re)builds the executable instance the
+   correspondence check runs (no float enters the statement below) *)
+From Inferno Require Import Base.Num Base.NumR Gen.Infra C01.Ring C04.Synapse C04.SynapseExec
   C04.HistProofs C04.ClosedForms C04.SelectProofs C04.SynapseProofs.
 Import ListNotations.
 Open Scope R_scope.
@@ -14,7 +16,7 @@ Definition ops0 : list (sop RN) :=
   [OStep RN [2%nat] [1; 0] []; OCurrentAt RN [2%nat] [2; 5 / 2]; OStep RN [2%nat] [0; 1] []; OStep RN [3%nat] [0; 0; 0] []].
 
 Theorem nonvacuous :
-  cfg_ok c0 /\ Forall (op_ok RN) ops0 /\
+  kind_of 2%Z = KSingleExp /\ cfg_ok c0 /\ Forall (op_ok RN) ops0 /\
   recordsz RN (cdt RN c0) (cdelay RN c0) = 4%nat /\
   fold_left (spec_step RN c0) ops0 [] = [([0; 1], []); ([1; 0], [])] /\
   Inv RN c0 (fst (run RN c0 (init RN c0) ops0)) [([0; 1], []); ([1; 0], [])] /\
@@ -27,7 +29,7 @@ Proof.
   assert (Hok : Forall (op_ok RN) ops0).
   { unfold ops0. repeat constructor. }
   assert (Hp : fold_left (spec_step RN c0) ops0 [] = [([0; 1], []); ([1; 0], [])]) by reflexivity.
-  split; [unfold cfg_ok, c0; cbn; lra|]. split; [exact Hok|]. split.
+  split; [reflexivity|]. split; [unfold cfg_ok, c0; cbn; lra|]. split; [exact Hok|]. split.
   { unfold recordsz, recordsz_expr, c0. cbn [cdt cdelay]. rn_simpl. replace (3 / 1) with (IZR 3) by (cbn; lra).
     rewrite Zceil_IZR. reflexivity. }
   split; [exact Hp|]. split; [rewrite <- Hp; apply run_init_inv; exact Hok|].
